@@ -618,7 +618,14 @@ async fn run_phase_sqlite(store: Arc<SessionStore>, phase: &Phase, tape: &mut Ta
                 let log = sh.borrow().log.lines.join("\n");
                 simcore::driver::harness_error(&format!("storesim(sqlite): every operation in flight is asleep on a lock (deadlock inside the store) lock_waiting={lock_waiting} done={done}/{} gate: {}\n{log}", batch.len(), crate::gate::debug_state()));
             }
-            if running == 0 && snap.orphan_transactions == 0 && !waiting.is_empty() && op_statements + lock_waiting as usize + done == batch.len() {
+            // An operation that issues ROLLBACK itself (an explicit rollback on an error branch instead
+            // of a dropped transaction) waits for it: the accounting above would never add up. If
+            // nothing has moved for a while in real time, every thread is parked, and the parked
+            // statements can account for every operation in flight, the system is taken to be
+            // quiescent. (Never happens on the unchanged tree; a harness error would hide the change.)
+            let strict = op_statements + lock_waiting as usize + done == batch.len();
+            let loose = !strict && waiting.len() + lock_waiting as usize + done >= batch.len() && stuck_since.map(|t| t.elapsed() > std::time::Duration::from_millis(400)).unwrap_or(false);
+            if running == 0 && snap.orphan_transactions == 0 && !waiting.is_empty() && (strict || loose) {
                 let k = tape.choose(waiting.len() as u32) as usize;
                 {
                     let mut s = sh.borrow_mut();
@@ -655,6 +662,9 @@ async fn run_phase_sqlite(store: Arc<SessionStore>, phase: &Phase, tape: &mut Ta
                 stuck_since = None;
             } else {
                 spins += 1;
+                if spins > 2_000 {
+                    stuck_since.get_or_insert_with(std::time::Instant::now);
+                }
                 if spins > 400_000 && stuck_since.get_or_insert_with(std::time::Instant::now).elapsed() > std::time::Duration::from_secs(120) {
                     let log = sh.borrow().log.lines.join("\n");
                     simcore::driver::harness_error(&format!("storesim(sqlite): the system never became quiescent: parked={waiting:?} running={running} lock_waiting={lock_waiting} done={done}/{}\n{log}", batch.len()));
